@@ -290,8 +290,7 @@ theorem reject_hdkey_uncompressed (env : Env) (key : KeyObj E) (cc : Bytes) (ver
   · rw [if_pos]
     simp [KeyObj.serialize, PublicKey.sec, pubkeySerialize_length, hk]
 
--- GOAL (not proved): xkey_parse_sound : HDKey.parse E env b = some k → k.serialize = some b   (decided on every run by the predicate "accepted ⇒ re-encodes to itself" in harness/props/c10.py)
--- GOAL (not proved): wif_parse_sound : fromWif E env t = some k → wif k = t under the codec law enc (dec t) = t   (decided by the same predicate on every accepted WIF)
+-- (decoder soundness — accepted ⇒ re-encodes to itself — for WIF, extended keys, stream reads, x-only and private keys is in Props/C10X.lean)
 
 /-! ### non-vacuity -/
 
